@@ -48,6 +48,15 @@ static const struct variant VARIANTS[] = {
     {"empty-line-first", "\r\nGET /api/jet/ HTTP/1.1\r\nHost: x\r\n\r\n", false},
     {"only-crlf-crlf", "\r\n\r\n", true},
     {"absolute-uri-target", "GET http://host/api/jet/ HTTP/1.1\r\nHost: x\r\nUpgrade: websocket\r\nConnection: Upgrade\r\nSec-WebSocket-Key: dGhlIHNhbXBsZSBub25jZQ==\r\nSec-WebSocket-Version: 13\r\nSec-WebSocket-Protocol: jet\r\n\r\n", false},
+    {"ws-version-near-miss-130", "GET /api/jet/ HTTP/1.1\r\nHost: x\r\nUpgrade: websocket\r\nConnection: Upgrade\r\nSec-WebSocket-Key: dGhlIHNhbXBsZSBub25jZQ==\r\nSec-WebSocket-Version: 130\r\nSec-WebSocket-Protocol: jet\r\n\r\n", true},
+    {"ws-version-near-miss-137", "GET /api/jet/ HTTP/1.1\r\nHost: x\r\nUpgrade: websocket\r\nConnection: Upgrade\r\nSec-WebSocket-Key: dGhlIHNhbXBsZSBub25jZQ==\r\nSec-WebSocket-Version: 137\r\nSec-WebSocket-Protocol: jet\r\n\r\n", true},
+    {"ws-version-near-miss-13x", "GET /api/jet/ HTTP/1.1\r\nHost: x\r\nUpgrade: websocket\r\nConnection: Upgrade\r\nSec-WebSocket-Key: dGhlIHNhbXBsZSBub25jZQ==\r\nSec-WebSocket-Version: 13x\r\nSec-WebSocket-Protocol: jet\r\n\r\n", true},
+    {"ws-version-near-miss-13.5", "GET /api/jet/ HTTP/1.1\r\nHost: x\r\nUpgrade: websocket\r\nConnection: Upgrade\r\nSec-WebSocket-Key: dGhlIHNhbXBsZSBub25jZQ==\r\nSec-WebSocket-Version: 13.5\r\nSec-WebSocket-Protocol: jet\r\n\r\n", true},
+    {"ws-version-near-miss-1", "GET /api/jet/ HTTP/1.1\r\nHost: x\r\nUpgrade: websocket\r\nConnection: Upgrade\r\nSec-WebSocket-Key: dGhlIHNhbXBsZSBub25jZQ==\r\nSec-WebSocket-Version: 1\r\nSec-WebSocket-Protocol: jet\r\n\r\n", true},
+    {"ws-version-near-miss-3", "GET /api/jet/ HTTP/1.1\r\nHost: x\r\nUpgrade: websocket\r\nConnection: Upgrade\r\nSec-WebSocket-Key: dGhlIHNhbXBsZSBub25jZQ==\r\nSec-WebSocket-Version: 3\r\nSec-WebSocket-Protocol: jet\r\n\r\n", true},
+    {"ws-version-near-miss-113", "GET /api/jet/ HTTP/1.1\r\nHost: x\r\nUpgrade: websocket\r\nConnection: Upgrade\r\nSec-WebSocket-Key: dGhlIHNhbXBsZSBub25jZQ==\r\nSec-WebSocket-Version: 113\r\nSec-WebSocket-Protocol: jet\r\n\r\n", true},
+    {"ws-version-near-miss--13", "GET /api/jet/ HTTP/1.1\r\nHost: x\r\nUpgrade: websocket\r\nConnection: Upgrade\r\nSec-WebSocket-Key: dGhlIHNhbXBsZSBub25jZQ==\r\nSec-WebSocket-Version: -13\r\nSec-WebSocket-Protocol: jet\r\n\r\n", true},
+    {"ws-version-near-miss-13,12-as-one-token", "GET /api/jet/ HTTP/1.1\r\nHost: x\r\nUpgrade: websocket\r\nConnection: Upgrade\r\nSec-WebSocket-Key: dGhlIHNhbXBsZSBub25jZQ==\r\nSec-WebSocket-Version: 1312\r\nSec-WebSocket-Protocol: jet\r\n\r\n", true},
     {"two-requests-pipelined", "GET /nothing HTTP/1.1\r\nHost: x\r\n\r\nGET /api/jet/ HTTP/1.1\r\nHost: x\r\n\r\n", true},
 };
 #define NVARIANTS ((int)(sizeof(VARIANTS) / sizeof(VARIANTS[0])))
@@ -233,6 +242,6 @@ const struct driver drv_c13 = {
     .name = "c13",
     .property = "C13",
     .run = run,
-    .rule = "a valid upgrade request truncated after every byte count (then FIN / then reset), with every byte replaced by each of {00, space, CR, LF, X, FF}, plus 35 request variants (incl. requests that lack the Upgrade or the Connection: Upgrade header) (wrong path / method / version, malformed request line or header, over-long lines of 511..2000 bytes); the valid request and three variants again while the n-th allocation of the exchange fails (n = 1..16); with deviation budget 1 each case is also delivered split at every byte position with a would-block in between; non-trivial = cases that must not be upgraded or were not upgraded; states = distinct (bytes, split, ending)",
+    .rule = "a valid upgrade request truncated after every byte count (then FIN / then reset), with every byte replaced by each of {00, space, CR, LF, X, FF}, plus 44 request variants (incl. requests that lack the Upgrade or the Connection: Upgrade header, and nine near-miss values of Sec-WebSocket-Version: 130, 137, 13x, 13.5, 1, 3, 113, -13, 1312) (wrong path / method / version, malformed request line or header, over-long lines of 511..2000 bytes); the valid request and three variants again while the n-th allocation of the exchange fails (n = 1..16); with deviation budget 1 each case is also delivered split at every byte position with a would-block in between; non-trivial = cases that must not be upgraded or were not upgraded; states = distinct (bytes, split, ending)",
     .assumptions = "only request-line corruptions, truncations and the listed variants are classified as 'clearly not a valid upgrade'; a corrupted byte inside the header block is subject to the resource and shutdown oracle only",
 };
